@@ -16,124 +16,211 @@ variable (E : Env S) (cp : S → Nat) (pc : Nat → Bytes) (coldef : Nat → Nat
   (parse : Connection S → Bytes → Option (ComStmtExecute S)) (app : S → Option (ResultSet S))
   (ur : S → Bool) (fls : ComFieldList S → S) (fcd : Nat → S → Bytes → Bytes)
   (other : Nat → Connection S → Bytes → Except (Connection S) (Connection S)) (err : Connection S → Bytes)
+  (af : Nat → Connection S → Bytes → Option (Connection S))
 
 /-- a packet is COM_QUIT iff its first byte is 1 -/
 def isQuit (data : Bytes) : Bool := data.head? == some (1 : UInt8)
 
+/-- a packet is COM_CHANGE_USER (the one untranslated handler) iff its first byte is 17 -/
+def isChangeUser (data : Bytes) : Bool := data.head? == some (17 : UInt8)
+
 /-- one iteration leaves the executing flag cleared and ends by resetting the sequence, whatever the packet -/
 theorem step_clears_and_resets (c : Connection S) (data : Bytes) :
-    (command_step E cp pc coldef parse app ur fls fcd other err c data).1._executing = false ∧
-    ∃ pre, (command_step E cp pc coldef parse app ur fls fcd other err c data).1.out = pre ++ [Ev.reset_seq] := by
-  have h := command_step_spec E cp pc coldef parse app ur fls fcd other err c data
-  cases data with
-  | nil =>
-    dsimp only at h
-    rw [h]
-    exact ⟨rfl, c.out ++ [Ev.write (err { c with _executing := false }) true], by simp⟩
-  | cons command rest =>
-    dsimp only at h
-    cases hd : dispatch E cp pc coldef parse app ur fls fcd other ({ c with _executing := true } : Connection S) command.toNat rest with
-    | error s =>
-      rw [hd] at h; dsimp only at h; rw [h]
-      exact ⟨rfl, s.out ++ [Ev.write (err { s with _executing := false }) true], by simp⟩
-    | ok o =>
-      cases o with
-      | none => rw [hd] at h; dsimp only at h; rw [h]; exact ⟨rfl, c.out, rfl⟩
-      | some s => rw [hd] at h; dsimp only at h; rw [h]; exact ⟨rfl, s.out, rfl⟩
+    (command_step E cp pc coldef parse app ur fls fcd other err af c data).1._executing = false ∧
+    ∃ pre, (command_step E cp pc coldef parse app ur fls fcd other err af c data).1.out = pre ++ [Ev.reset_seq] := by
+  have h := command_step_spec E cp pc coldef parse app ur fls fcd other err af c data
+  dsimp only at h
+  cases ha : authEnded af c data with
+  | some s => rw [ha] at h; dsimp only at h; rw [h]; exact ⟨rfl, s.out, rfl⟩
+  | none =>
+    rw [ha] at h; dsimp only at h
+    cases data with
+    | nil =>
+      dsimp only at h
+      rw [h]
+      exact ⟨rfl, c.out ++ [Ev.write (err { c with _executing := false }) true], by simp⟩
+    | cons command rest =>
+      dsimp only at h
+      cases hd : dispatch E cp pc coldef parse app ur fls fcd other ({ c with _executing := true } : Connection S) command.toNat rest with
+      | error s =>
+        rw [hd] at h; dsimp only at h; rw [h]
+        exact ⟨rfl, s.out ++ [Ev.write (err { s with _executing := false }) true], by simp⟩
+      | ok o =>
+        cases o with
+        | none => rw [hd] at h; dsimp only at h; rw [h]; exact ⟨rfl, c.out, rfl⟩
+        | some s => rw [hd] at h; dsimp only at h; rw [h]; exact ⟨rfl, s.out, rfl⟩
 
-/-- an iteration ends the loop iff the packet is COM_QUIT — no handler, no failure and no malformed packet ends it -/
-theorem step_stops_iff_quit (c : Connection S) (data : Bytes) :
-    (command_step E cp pc coldef parse app ur fls fcd other err c data).2 = false ↔ isQuit data = true := by
-  have h := command_step_spec E cp pc coldef parse app ur fls fcd other err c data
+/-- only a COM_CHANGE_USER packet can be ended by `AuthenticationFailed` -/
+theorem authEnded_only_change_user (c : Connection S) (data : Bytes) (s : Connection S) (h : authEnded af c data = some s) :
+    isChangeUser data = true := by
   cases data with
-  | nil =>
-    dsimp only at h
-    rw [h]; simp [isQuit]
+  | nil => simp [authEnded] at h
   | cons command rest =>
-    dsimp only at h
-    have hq := dispatch_quit_iff E cp pc coldef parse app ur fls fcd other ({ c with _executing := true } : Connection S) command.toNat rest
-    have hb : isQuit (command :: rest) = true ↔ command.toNat = 1 := by
-      simp only [isQuit, List.head?_cons, beq_iff_eq, Option.some.injEq]
-      constructor
-      · intro e; subst e; rfl
-      · intro e; exact UInt8.toNat_inj.mp (by simpa using e)
-    cases hd : dispatch E cp pc coldef parse app ur fls fcd other ({ c with _executing := true } : Connection S) command.toNat rest with
-    | error s =>
-      rw [hd] at h hq; dsimp only at h; rw [h, hb]
-      constructor
-      · intro e; cases e
-      · intro e; exact absurd (hq.mpr e) (by simp)
-    | ok o =>
-      cases o with
-      | none =>
-        rw [hd] at h hq; dsimp only at h; rw [h, hb]
-        exact ⟨fun _ => hq.mp rfl, fun _ => rfl⟩
-      | some s =>
+    simp [authEnded, untranslated] at h
+    have : command = 17 := UInt8.toNat_inj.mp (by simpa using h.1)
+    subst this; rfl
+
+/-- when no COM_CHANGE_USER fails its authentication, the `AuthenticationFailed` arm is never taken -/
+theorem authEnded_none (hno : ∀ c d, af 17 c d = none) (c : Connection S) (data : Bytes) : authEnded af c data = none := by
+  cases data with
+  | nil => rfl
+  | cons command rest =>
+    simp only [authEnded]
+    by_cases hu : untranslated.contains command.toNat = true
+    · have h17 : command.toNat = 17 := by simpa [untranslated] using hu
+      rw [if_pos hu, h17]; exact hno _ _
+    · rw [if_neg hu]
+
+/-- **an iteration ends the loop iff the packet is COM_QUIT, or it is a COM_CHANGE_USER whose handler raised
+    `AuthenticationFailed`** — no other handler, no other failure and no malformed packet ends the command phase -/
+theorem step_stops_iff (c : Connection S) (data : Bytes) :
+    (command_step E cp pc coldef parse app ur fls fcd other err af c data).2 = false ↔
+      (isQuit data = true ∨ (authEnded af c data).isSome = true) := by
+  have h := command_step_spec E cp pc coldef parse app ur fls fcd other err af c data
+  dsimp only at h
+  cases ha : authEnded af c data with
+  | some s => rw [ha] at h; dsimp only at h; rw [h]; simp
+  | none =>
+    rw [ha] at h; dsimp only at h
+    simp only [Option.isSome_none, Bool.false_eq_true, or_false]
+    cases data with
+    | nil =>
+      dsimp only at h
+      rw [h]; simp [isQuit]
+    | cons command rest =>
+      dsimp only at h
+      have hq := dispatch_quit_iff E cp pc coldef parse app ur fls fcd other ({ c with _executing := true } : Connection S) command.toNat rest
+      have hb : isQuit (command :: rest) = true ↔ command.toNat = 1 := by
+        simp only [isQuit, List.head?_cons, beq_iff_eq, Option.some.injEq]
+        constructor
+        · intro e; subst e; rfl
+        · intro e; exact UInt8.toNat_inj.mp (by simpa using e)
+      cases hd : dispatch E cp pc coldef parse app ur fls fcd other ({ c with _executing := true } : Connection S) command.toNat rest with
+      | error s =>
         rw [hd] at h hq; dsimp only at h; rw [h, hb]
         constructor
         · intro e; cases e
         · intro e; exact absurd (hq.mpr e) (by simp)
+      | ok o =>
+        cases o with
+        | none =>
+          rw [hd] at h hq; dsimp only at h; rw [h, hb]
+          exact ⟨fun _ => hq.mp rfl, fun _ => rfl⟩
+        | some s =>
+          rw [hd] at h hq; dsimp only at h; rw [h, hb]
+          constructor
+          · intro e; cases e
+          · intro e; exact absurd (hq.mpr e) (by simp)
+
+/-- COM_QUIT always ends the loop -/
+theorem step_quit_stops (c : Connection S) (data : Bytes) (hq : isQuit data = true) :
+    (command_step E cp pc coldef parse app ur fls fcd other err af c data).2 = false :=
+  (step_stops_iff E cp pc coldef parse app ur fls fcd other err af c data).mpr (Or.inl hq)
+
+/-- whatever ends the loop is a COM_QUIT or a COM_CHANGE_USER packet -/
+theorem step_stops_only (c : Connection S) (data : Bytes)
+    (h : (command_step E cp pc coldef parse app ur fls fcd other err af c data).2 = false) :
+    isQuit data = true ∨ isChangeUser data = true := by
+  rcases (step_stops_iff E cp pc coldef parse app ur fls fcd other err af c data).mp h with hq | ha
+  · exact Or.inl hq
+  · obtain ⟨s, hs⟩ := Option.isSome_iff_exists.mp ha
+    exact Or.inr (authEnded_only_change_user af c data s hs)
 
 /-- the loop, one packet at a time -/
 theorem loop_cons (c : Connection S) (p : Bytes) (ps : List Bytes) :
-    command_loop E cp pc coldef parse app ur fls fcd other err c (p :: ps)
-      = if (command_step E cp pc coldef parse app ur fls fcd other err c p).2 = true then command_loop E cp pc coldef parse app ur fls fcd other err (command_step E cp pc coldef parse app ur fls fcd other err c p).1 ps
-        else ((command_step E cp pc coldef parse app ur fls fcd other err c p).1, true) := by
+    command_loop E cp pc coldef parse app ur fls fcd other err af c (p :: ps)
+      = if (command_step E cp pc coldef parse app ur fls fcd other err af c p).2 = true then command_loop E cp pc coldef parse app ur fls fcd other err af (command_step E cp pc coldef parse app ur fls fcd other err af c p).1 ps
+        else ((command_step E cp pc coldef parse app ur fls fcd other err af c p).1, true) := by
   simp only [command_loop]
   split <;> rename_i s heq <;> simp [heq]
 
 /-- the loop over `ps ++ qs`: the loop over `ps`, and — unless that ended with COM_QUIT — the loop over `qs` from where it
     stopped -/
 theorem loop_append (c : Connection S) (ps qs : List Bytes) :
-    command_loop E cp pc coldef parse app ur fls fcd other err c (ps ++ qs)
-      = if (command_loop E cp pc coldef parse app ur fls fcd other err c ps).2 then command_loop E cp pc coldef parse app ur fls fcd other err c ps
-        else command_loop E cp pc coldef parse app ur fls fcd other err (command_loop E cp pc coldef parse app ur fls fcd other err c ps).1 qs := by
+    command_loop E cp pc coldef parse app ur fls fcd other err af c (ps ++ qs)
+      = if (command_loop E cp pc coldef parse app ur fls fcd other err af c ps).2 then command_loop E cp pc coldef parse app ur fls fcd other err af c ps
+        else command_loop E cp pc coldef parse app ur fls fcd other err af (command_loop E cp pc coldef parse app ur fls fcd other err af c ps).1 qs := by
   induction ps generalizing c with
   | nil => simp [command_loop]
   | cons p ps ih =>
     rw [List.cons_append, loop_cons, loop_cons]
-    by_cases hg : (command_step E cp pc coldef parse app ur fls fcd other err c p).2 = true
+    by_cases hg : (command_step E cp pc coldef parse app ur fls fcd other err af c p).2 = true
     · simp only [hg, if_true]; exact ih _
     · simp [hg]
 
-/-- **the loop ends by COM_QUIT iff the client sent one**: no other packet and no failure ends the command phase while the
-    peer is there -/
-theorem loop_quit_iff (c : Connection S) (ps : List Bytes) :
-    (command_loop E cp pc coldef parse app ur fls fcd other err c ps).2 = true ↔ ∃ p ∈ ps, isQuit p = true := by
+/-- **the loop is ended only by a COM_QUIT or a COM_CHANGE_USER packet** (the latter when its authentication fails): no other
+    packet and no failure ends the command phase while the peer is there -/
+theorem loop_ends_only (c : Connection S) (ps : List Bytes)
+    (h : (command_loop E cp pc coldef parse app ur fls fcd other err af c ps).2 = true) :
+    ∃ p ∈ ps, isQuit p = true ∨ isChangeUser p = true := by
+  induction ps generalizing c with
+  | nil => simp [command_loop] at h
+  | cons p ps ih =>
+    rw [loop_cons] at h
+    by_cases hg : (command_step E cp pc coldef parse app ur fls fcd other err af c p).2 = true
+    · simp only [hg, if_true] at h
+      obtain ⟨q, hq, hq'⟩ := ih _ h
+      exact ⟨q, List.mem_cons_of_mem _ hq, hq'⟩
+    · have hf : (command_step E cp pc coldef parse app ur fls fcd other err af c p).2 = false := by simpa using hg
+      exact ⟨p, List.mem_cons_self, step_stops_only E cp pc coldef parse app ur fls fcd other err af c p hf⟩
+
+/-- **a COM_QUIT always ends it** -/
+theorem loop_quit_ends (c : Connection S) (ps : List Bytes) (h : ∃ p ∈ ps, isQuit p = true) :
+    (command_loop E cp pc coldef parse app ur fls fcd other err af c ps).2 = true := by
+  induction ps generalizing c with
+  | nil => simp at h
+  | cons p ps ih =>
+    rw [loop_cons]
+    by_cases hg : (command_step E cp pc coldef parse app ur fls fcd other err af c p).2 = true
+    · simp only [hg, if_true]
+      obtain ⟨q, hq, hq'⟩ := h
+      rcases List.mem_cons.mp hq with e | hm
+      · subst e
+        have := step_quit_stops E cp pc coldef parse app ur fls fcd other err af c q hq'
+        rw [hg] at this; cases this
+      · exact ih _ ⟨q, hm, hq'⟩
+    · simp [hg]
+
+/-- when no COM_CHANGE_USER fails its authentication (in particular when none is sent), **the loop ends iff the client sent a
+    COM_QUIT** -/
+theorem loop_quit_iff (hno : ∀ c d, af 17 c d = none) (c : Connection S) (ps : List Bytes) :
+    (command_loop E cp pc coldef parse app ur fls fcd other err af c ps).2 = true ↔ ∃ p ∈ ps, isQuit p = true := by
+  refine ⟨?_, loop_quit_ends E cp pc coldef parse app ur fls fcd other err af c ps⟩
   induction ps generalizing c with
   | nil => simp [command_loop]
   | cons p ps ih =>
     rw [loop_cons]
-    simp only [List.mem_cons, exists_eq_or_imp]
-    have hq := step_stops_iff_quit E cp pc coldef parse app ur fls fcd other err c p
-    by_cases hg : (command_step E cp pc coldef parse app ur fls fcd other err c p).2 = true
-    · have : ¬ isQuit p = true := fun e => by have := hq.mpr e; rw [hg] at this; cases this
-      simp only [hg, if_true, ih, this]
-      simp
-    · have hf : (command_step E cp pc coldef parse app ur fls fcd other err c p).2 = false := by simpa using hg
-      simp [hg, hq.mp hf]
+    by_cases hg : (command_step E cp pc coldef parse app ur fls fcd other err af c p).2 = true
+    · simp only [hg, if_true]
+      intro h; obtain ⟨q, hq, hq'⟩ := ih _ h
+      exact ⟨q, List.mem_cons_of_mem _ hq, hq'⟩
+    · have hf : (command_step E cp pc coldef parse app ur fls fcd other err af c p).2 = false := by simpa using hg
+      intro _
+      rcases (step_stops_iff E cp pc coldef parse app ur fls fcd other err af c p).mp hf with hq | ha
+      · exact ⟨p, List.mem_cons_self, hq⟩
+      · rw [authEnded_none af hno] at ha; cases ha
 
 /-- **nothing after COM_QUIT is looked at**: the packets a client pipelines behind its QUIT change neither the state nor
     what was written -/
 theorem loop_ignores_after_quit (c : Connection S) (pre post : List Bytes) (q : Bytes) (hq : isQuit q = true) :
-    command_loop E cp pc coldef parse app ur fls fcd other err c (pre ++ q :: post)
-      = command_loop E cp pc coldef parse app ur fls fcd other err c (pre ++ [q]) := by
-  have h1 : (command_loop E cp pc coldef parse app ur fls fcd other err c (pre ++ [q])).2 = true :=
-    (loop_quit_iff E cp pc coldef parse app ur fls fcd other err c (pre ++ [q])).mpr ⟨q, by simp, hq⟩
+    command_loop E cp pc coldef parse app ur fls fcd other err af c (pre ++ q :: post)
+      = command_loop E cp pc coldef parse app ur fls fcd other err af c (pre ++ [q]) := by
+  have h1 : (command_loop E cp pc coldef parse app ur fls fcd other err af c (pre ++ [q])).2 = true :=
+    loop_quit_ends E cp pc coldef parse app ur fls fcd other err af c (pre ++ [q]) ⟨q, by simp, hq⟩
   have : pre ++ q :: post = (pre ++ [q]) ++ post := by simp
   rw [this, loop_append, h1]; rfl
 
 /-- **after any non-empty conversation** the executing flag is cleared and the last thing done was the sequence reset: every
     command, whatever became of it, leaves the connection ready for a packet numbered 0 -/
 theorem loop_clears_and_resets (c : Connection S) (ps : List Bytes) (hne : ps ≠ []) :
-    (command_loop E cp pc coldef parse app ur fls fcd other err c ps).1._executing = false ∧
-    ∃ pre, (command_loop E cp pc coldef parse app ur fls fcd other err c ps).1.out = pre ++ [Ev.reset_seq] := by
+    (command_loop E cp pc coldef parse app ur fls fcd other err af c ps).1._executing = false ∧
+    ∃ pre, (command_loop E cp pc coldef parse app ur fls fcd other err af c ps).1.out = pre ++ [Ev.reset_seq] := by
   induction ps generalizing c with
   | nil => exact absurd rfl hne
   | cons p ps ih =>
-    have hst := step_clears_and_resets E cp pc coldef parse app ur fls fcd other err c p
+    have hst := step_clears_and_resets E cp pc coldef parse app ur fls fcd other err af c p
     rw [loop_cons]
-    by_cases hg : (command_step E cp pc coldef parse app ur fls fcd other err c p).2 = true
+    by_cases hg : (command_step E cp pc coldef parse app ur fls fcd other err af c p).2 = true
     · simp only [hg, if_true]
       cases ps with
       | nil => simpa [command_loop] using hst
@@ -149,23 +236,21 @@ def served : List Bytes → List Bytes
   | p :: ps => if isQuit p then [p] else p :: served ps
 
 theorem loop_served (c : Connection S) (ps : List Bytes) :
-    command_loop E cp pc coldef parse app ur fls fcd other err c ps
-      = command_loop E cp pc coldef parse app ur fls fcd other err c (served ps) := by
+    command_loop E cp pc coldef parse app ur fls fcd other err af c ps
+      = command_loop E cp pc coldef parse app ur fls fcd other err af c (served ps) := by
   induction ps generalizing c with
   | nil => rfl
   | cons p ps ih =>
-    have hq := step_stops_iff_quit E cp pc coldef parse app ur fls fcd other err c p
     by_cases hp : isQuit p = true
-    · have hf := hq.mpr hp
+    · have hf := step_quit_stops E cp pc coldef parse app ur fls fcd other err af c p hp
       simp only [served, hp, if_true]
       rw [loop_cons, loop_cons]; simp [hf]
-    · have hg : (command_step E cp pc coldef parse app ur fls fcd other err c p).2 = true := by
-        cases hh : (command_step E cp pc coldef parse app ur fls fcd other err c p).2 with
-        | true => rfl
-        | false => exact absurd (hq.mp hh) hp
-      have hp' : isQuit p = false := by simpa using hp
+    · have hp' : isQuit p = false := by simpa using hp
       simp only [served, hp', Bool.false_eq_true, if_false]
-      rw [loop_cons, loop_cons]; simp only [hg, if_true]; exact ih _
+      rw [loop_cons, loop_cons]
+      by_cases hg : (command_step E cp pc coldef parse app ur fls fcd other err af c p).2 = true
+      · simp only [hg, if_true]; exact ih _
+      · simp [hg]
 
 end loop
 end MimicProofs.CommandLoop
